@@ -136,7 +136,7 @@ fn join_accept_step(ri: usize, len: usize) {
             crate::vcheck!(s.uplink.mac_commands().len() == 0 && !s.uplink.confirms_downlink(), "C11: no stale answers in the new session");
             // RxDelay
             let del = d[11] & 0x0f;
-            crate::vcheck!(cfg.rx1_delay == if del == 0 { 1000 } else { del as u32 * 1000 }, "C11: RxDelay applied (0 means 1 s)");
+            crate::vcheck!(cfg.rx1_delay == if del == 0 { 1000 } else { del as u32 * 1000 }, "C10/C11: RxDelay applied (0 means 1 s)");
             // DLSettings
             let off = (d[10] >> 4) & 7;
             let r2 = d[10] & 0x0f;
@@ -198,7 +198,7 @@ macro_rules! ja { ($name:ident, $ri:expr, $len:expr) => {
     fn $name() { join_accept_step($ri, $len) }
 }; }
 
-//@h id=join_accept_17_r0 props=C04,C07,C09,C11 tier=quick build=dev-eu868 tbuilds=dev-eu433,dev-in865,dev-as923 cost=60 timeout=1200
+//@h id=join_accept_17_r0 props=C04,C07,C09,C10,C11 tier=quick build=dev-eu868 tbuilds=dev-eu433,dev-in865,dev-as923 cost=60 timeout=1200
 //@bounds EU868; 17-byte frame with all bytes symbolic (every MHDR, JoinNonce, NetID, DevAddr, DLSettings, RxDelay), any root key, any DevNonce, arbitrary prior plan/configuration under the invariants
 //@encodes Otaa::handle_rx, DecryptedJoinAcceptPayload::{check_mic_and_decrypt_in_place, accessors, derive_*}, Session::derive_new, region process_join_accept / rx1_dr_offset_validate / get_datarate, del_to_delay_ms
 //@assumes AES/CMAC are uninterpreted functions
@@ -207,7 +207,7 @@ ja!(join_accept_17_r0, 0, 17);
 //@bounds EU868; 33-byte frame (CFList of any type with arbitrary frequencies/masks), otherwise as above
 //@assumes AES/CMAC are uninterpreted functions
 ja!(join_accept_33_r0, 0, 33);
-//@h id=join_accept_17_us props=C04,C07,C09,C11 tier=quick build=dev-us915 tbuilds=dev-au915 cost=60 timeout=1200
+//@h id=join_accept_17_us props=C04,C07,C09,C10,C11 tier=quick build=dev-us915 tbuilds=dev-au915 cost=60 timeout=1200
 //@bounds US915; 17-byte frame, all bytes symbolic
 //@assumes AES/CMAC are uninterpreted functions
 ja!(join_accept_17_us, 0, 17);
